@@ -13,7 +13,7 @@
                                 have a left / right inverse *)
 From Coq Require Import List Arith ZArith Reals QArith Qcanon.
 From TV Require Import Num.Ops Lin.Tab Lin.BigSum Lin.Mat TT.Chain Model.Transformation Model.Sample Model.Svd Model.SvdInc
-  Proofs.SvdIncP Proofs.SvdIncP2 Proofs.SvdIncP3 Proofs.SvdIncP4 Proofs.SvdIncP5 Proofs.SvdIncR Proofs.SvdIncEx.
+  Proofs.SvdIncP Proofs.SvdIncP2 Proofs.SvdIncP3 Proofs.SvdIncP4 Proofs.SvdIncP5 Proofs.SvdIncR Proofs.SvdIncEx Proofs.SvdIncEx2.
 Import ListNotations.
 Open Scope nat_scope.
 
@@ -154,6 +154,45 @@ Theorem C20_incomplete_recovers_rank :
     forall i, inb ns i -> get K Yres i = F i.
 Proof. exact @incomplete_recovers_rank. Qed.
 
+(* "the sampled interface matrices have full rank", stated directly on the cores Tg of the target: at bond k (of rank
+   rho) the rho-column matrix of left interface vectors  run [1] Tg[:k] prefix_i  of the prefixes sampled for mode k has
+   a left inverse and the rho-row matrix of right interface vectors  dget Tg[k:] suffix_j  of the suffixes sampled for
+   mode k-1 has a right inverse (over a field: full column / row rank).  That is [tt_rank_hyp]; it implies the rank
+   hypothesis of C20_incomplete_recovers_rank for the function  get Tg ... *)
+Theorem C20_tt_full_rank_implies_rank_hyp :
+  forall T (K : ops T), rng K -> forall ns PS (Tg : list (core T)), shape Tg = ns ->
+  forall k, k <= length ns -> tt_rank_hyp K PS Tg k -> rank_hyp K ns PS (get K Tg) k.
+Proof. exact @tt_rank_hyp_rank. Qed.
+(* ... where tt_rank_hyp unfolds to exactly that statement about the cores *)
+Theorem C20_tt_rank_hyp_unfold :
+  forall T (K : ops T) PS (Tg : list (core T)) k,
+  tt_rank_hyp K PS Tg k <->
+  exists (rho : nat) (L Ri : nat -> nat -> T),
+    chain 1 (firstn k Tg) rho /\ chain rho (skipn k Tg) 1 /\
+    (forall a a', a < rho -> a' < rho ->
+       bsum K (length (fst (nth k PS dPS)))
+         (fun i => omul K (L a i) (nth a' (run K [o1 K] (firstn k Tg) (nth i (fst (nth k PS dPS)) [])) (o0 K)))
+       = delta K a a') /\
+    (forall a a', a < rho -> a' < rho ->
+       bsum K (length (snd (nth (k - 1) PS dPS)))
+         (fun j => omul K (dget K (skipn k Tg) (nth j (snd (nth (k - 1) PS dPS)) []) rho a 0) (Ri j a'))
+       = delta K a a').
+Proof. intros; reflexivity. Qed.
+(* ... hence recovery for a TT target on any samples with the block layout *)
+Theorem C20_incomplete_recovers_tt :
+  forall T (K : ops T), rng K -> forall svdo lstsq, (forall c A, mr (fst (fst (svdo c A))) = mr A) ->
+  lstsq_solves K lstsq ->
+  forall ns II idx idm PS, layout ns II idx idm PS -> 2 <= length ns -> Forall (fun n => 0 < n) ns ->
+  forall Tg : list (core T), shape Tg = ns -> forall e rcap,
+  (forall c k, k < length ns -> skel_used ns PS rcap k = true ->
+     skel_exact_at K svdo ns II idx PS (get K Tg) e rcap c k) ->
+  (forall k, 1 <= k -> k < length ns -> tt_rank_hyp K PS Tg k) ->
+  (1 <= rcap)%Z ->
+  exists Yres, svd_incomplete K svdo lstsq II (map (get K Tg) II) idx idm e rcap = Ok Yres /\
+    shape Yres = ns /\ chain 1 Yres 1 /\ Forall (fun G => (Z.of_nat (cr2 G) <= rcap)%Z) Yres /\
+    forall i, inb ns i -> get K Yres i = get K Tg i.
+Proof. exact @incomplete_recovers_tt. Qed.
+
 (* the statement of the property: samples generated by sample_tt for expected rank m, target a TT-tensor of the sampled
    shape whose sampled left / right interface matrices have one-sided inverses at every bond *)
 Theorem C20_incomplete_recovers_sampled :
@@ -236,3 +275,32 @@ Example C20_recovery_computed_example :
   get OQc (cores sfin_ex) [0; 0; 1] = q 1 1 /\ get OQc (cores sfin_ex) [1; 0; 1] = q 5 1 /\
   F_ex [0; 0; 1] = q 1 1 /\ F_ex [1; 0; 1] = q 5 1.
 Proof. exact recover_ex_computed. Qed.
+
+(* second instance ("generic"): 3 x 2 x 3, m = 3, cap 2, rank-2 target with generic integer cores, generator drawing
+   the last indices and reversing, skeleton reduction used at mode 0 and at the inner mode 1, overdetermined lstsq *)
+Example C20_generic_generator_example :
+  (forall c k s, Forall (fun x => x < k) (chnr_g c k s)) /\
+  (forall c l (Q : nat -> Prop), Forall Q l -> Forall Q (shuf_g c l)).
+Proof. exact (conj chnr_g_ok shuf_g_ok). Qed.
+Example C20_generic_samples_example : layout ns_g II_g idx_g idm_g PS_g /\
+  length II_g = 36 /\ idx_g = [0; 9; 27; 36] /\ idm_g = [3; 3; 1] /\
+  PS_g = [([[]], [[1; 2]; [1; 1]; [0; 0]]); ([[2]; [1]; [0]], [[2]; [1]; [0]]); ([[2; 1]; [1; 1]; [0; 0]], [[]])].
+Proof. exact (conj layout_g samples_g). Qed.
+Example C20_generic_oracles_example :
+  (forall c A, mr (fst (fst (svd_g c A))) = mr A) /\
+  (run_g = Ok sfin_g /\
+   reach OQc svd_g lsq_g ns_g II_g idx_g idm_g (map F_g II_g) (q 0 1) 2%Z (length ns_g - 1) sfin_g) /\
+  (forall A b, In (CLsq A b) (trace sfin_g) -> forall c, lstsq_solves_at OQc lsq_g c A b) /\
+  (forall c k, k < length ns_g -> skel_used ns_g PS_g 2%Z k = true ->
+     skel_exact_at OQc svd_g ns_g II_g idx_g PS_g F_g (q 0 1) 2%Z c k) /\
+  skel_used ns_g PS_g 2%Z 1 = true.
+Proof. exact (conj svd_g_rows (conj (conj run_g_ok reach_g) (conj lsq_g_ok (conj skel_g eq_refl)))). Qed.
+Example C20_generic_rank_hypotheses_example : forall k, 1 <= k -> k < length ns_g -> tt_rank_hyp OQc PS_g Tg_g k.
+Proof. exact tt_hyp_g. Qed.
+Example C20_incomplete_exact_generic_example : forall i, inb ns_g i -> get OQc (cores sfin_g) i = F_g i.
+Proof. exact recover_g. Qed.
+Example C20_generic_recovery_computed_example :
+  ranks (cores sfin_g) = [1; 2; 2; 1] /\ length (trace sfin_g) = 7 /\
+  forallb (fun i => Qc_eqb (get OQc (cores sfin_g) i) (F_g i)) all_idx_g = true /\
+  F_g [2; 1; 0] = q 10 1.
+Proof. exact recover_g_computed. Qed.
